@@ -27,6 +27,8 @@ def classify(msg):
     m = msg
     if "marked free" in m or "reached twice" in m or "out of range" in m: return "C04"
     if "leak" in m or "free-block count" in m: return "C05"
+    # the bitmap structure itself (page list, extension blocks) cannot be decoded: format conformance AND allocation soundness
+    if m.startswith("bitmap:") or m.startswith("bitmap "): return "BM"
     if m.startswith("cache of dir"):
         # fixed fields of a cache block (type, self pointer, parent, checksum) are format conformance; its records are coherence
         if any(x in m for x in (" parent ", "type != T_DIRC", "headerKey != self", "bad checksum")): return "C03"
@@ -76,7 +78,7 @@ def run_one(exe, ops0, dostype, nblocks=1760, dumps=True, lean=True, fsck_every=
                     continue
                 f = fsck.fsck_image(img, 0, nblocks, check_cache=strict_cache)
                 for e in f.errors[:6]: r.fsck.append((ci, e))
-                if not f.errors or all(classify(e) != "C03" for e in f.errors):
+                if not f.errors or all(classify(e) not in ("C03", "BM") for e in f.errors):
                     r.fsck += [(ci, m) for m in compare_tree(f, j)]
                 continue
             for m in j.step(o, cb[i]): r.oracle.append((ci, m))
